@@ -105,6 +105,11 @@ def abs_apply(a, st):
         return a.clone(elems=None, indexable=False, keys=False)
     if op == 'local_shuffle':
         return a.clone(elems=None, indexable=False, findexable=False, keys=False)
+    if op == 'apply':
+        if not a.indexable or not a.sized:
+            return None
+        return a.clone(elems=None, n=None, indexable=False, findexable=False,
+                       sized=False, keys=False)
     if op == 'sort':
         if not a.indexable or a.elems is None:
             return None
